@@ -295,7 +295,7 @@ func setupMain() int {
 		}
 		// the model executables must build; a theorem module that does not build is reported by the
 		// check of the property it belongs to (broken obligation), it does not fail the setup
-		out, err := runCmd(leanDir(), "lake", "build", "jsight-model", "jsight-scan", "jsight-ctx")
+		out, err := runCmd(leanDir(), "lake", "build", "jsight-model", "jsight-scan", "jsight-ctx", "jsight-build")
 		if err != nil {
 			fmt.Println(lastLines(out, 30))
 			code = 1
